@@ -20,6 +20,7 @@
 -/
 import DrxProofs.LinkFlowParse
 import DrxProofs.LinkFlowLayout
+import DrxProofs.LinkFlowX
 namespace DrxProps.C03Link
 open Drx Drx.Lscr Drx.LinkFlow
 
@@ -155,7 +156,42 @@ theorem F1_repeat_in (s idx pj : Int) (c0 cond : Node) (X : List Node) (t : Str)
       .ok (⟨s, idx, cond, X, S "for_in", start, vn, sg0, fl⟩, false) :=
   rewriteRepeat_in s idx pj c0 cond X t st v sg0 lv bpp bpc start fl vn prev h hW
 
-/-! ## F4 (`exit repeat`): only the two per-construct step lemmas; the induction over programs with exits is NOT proved -/
+/-! ## F4 (`exit repeat`), restricted class: one `if c then …; exit repeat end if` directly in a loop body, no `if` behind it -/
+
+/-- **reconstruction with exit repeat.**  `SrcX` = source skeletons whose loops may contain, directly in their body, one
+    `if c2 then t; exit repeat end if` (`loopX h csz cond b1 csz2 cond2 t b2`; loops nest arbitrarily, also inside `b1`, `t`, `b2`);
+    class `SrcX.oks o ss` (decidable) = the lowered skeleton is well-formed — in particular NO `if` directly behind the if-exit in the
+    same body (finding F24) — and the exit-free skeleton `convX o ss` (the exit as last statement of the then-branch) is in the
+    class of `C03_partial_exit_free`.  Then the passes yield the nesting of `convX o ss`: the loop with its header, the `if` with
+    `exit repeat` as its last statement, everything else once and in order.  Covers the shape of the repository's fixtures
+    (`repeat … / if c then … exit repeat / … / end repeat`); not covered: exit inside nested ifs, in else branches, with an else,
+    or the early-conversion route of `break_detect` (F25 / F126 neighbourhood of `C03Supported`). -/
+theorem C03_partial_with_exit (ss : List SrcX) (o : Int) (h : SrcX.oks o ss = true) :
+    decompileFlow (rawEv o (lowerX ss)) = .ok (tgtL o (convX o ss)) :=
+  reconstructX ss o h
+
+/-- `condition_detect` alone, on every well-formed statement-level skeleton including `P.loopX` -/
+theorem condition_detect_with_exit (ps : List P) (o : Int) (h : P.wfs ps = true) : condDetect (emit false o ps) = .ok (tgtC o ps) :=
+  condDetect_emit ps o h
+
+/-- the body of a loop with an if-exit (the new case of the induction): header jump, ifs in front, the if-exit, the rest -/
+theorem F4_loop_body (k : Nat) (IH : ∀ ps, P.weights ps < k → MainAt ps) (d' : Nat) (b1 t b2 : List P) (csz2 : Nat) (cond cond2 : Node)
+    (pj o1 idx a0 X : Int) (hw1 : P.weights b1 < k) (hwt : P.weights t < k) (hwf1 : P.wfs b1 = true) (hwft : P.wfs t = true)
+    (hwf2 : P.wfs b2 = true) (hno : P.noIfs b2 = true) (hd1 : P.depths b1 ≤ d') (hdt : P.depths t ≤ d')
+    (hpj : pj < o1) (hidx : o1 + P.sizes b1 + csz2 + 3 + P.sizes t + 3 + P.sizes b2 ≤ idx) (ha0 : idx < a0) (hX : idx < X)
+    (hm1 : (emit false o1 b1).mapM (repStep d' (some idx)) = .ok (emit true o1 b1))
+    (hm2 : (emit false (o1 + P.sizes b1 + csz2 + 3) t).mapM (repStep d' (some idx)) = .ok (emit true (o1 + P.sizes b1 + csz2 + 3) t))
+    (hm3 : (emit false (o1 + P.sizes b1 + csz2 + 3 + P.sizes t + 3) b2).mapM (repStep d' (some idx)) =
+      .ok (emit true (o1 + P.sizes b1 + csz2 + 3 + P.sizes t + 3) b2)) :
+    condDetectD d' (jzStmt pj cond a0 :: (emit false o1 b1 ++ jzStmt (o1 + P.sizes b1 + csz2) cond2 (o1 + P.sizes b1 + csz2 + 3 + P.sizes t + 3) ::
+        (emit false (o1 + P.sizes b1 + csz2 + 3) t ++ jumpStmt (o1 + P.sizes b1 + csz2 + 3 + P.sizes t) X ::
+          emit false (o1 + P.sizes b1 + csz2 + 3 + P.sizes t + 3) b2))) (some idx) =
+      .ok (exitIf pj cond :: (tgtC o1 b1 ++ Node.stmt (o1 + P.sizes b1 + csz2) (.ifThen (o1 + P.sizes b1 + csz2) cond2
+        (tgtC (o1 + P.sizes b1 + csz2 + 3) t ++ [exitRepeatStmt (o1 + P.sizes b1 + csz2 + 3 + P.sizes t)]) []) ::
+        tgtC (o1 + P.sizes b1 + csz2 + 3 + P.sizes t + 3) b2)) :=
+  bodyX k IH d' b1 t b2 csz2 cond cond2 pj o1 idx a0 X hw1 hwt hwf1 hwft hwf2 hno hd1 hdt hpj hidx ha0 hX hm1 hm2 hm3
+
+/-! ### the two per-construct step lemmas for exits -/
 
 /-- `if c then …; exit repeat end if` (exit last in a then-branch without else): the reconstructed if-list `ifl` ends with a jump
     leaving the loop, which becomes the `exit repeat` statement -/
@@ -273,6 +309,26 @@ example : Abs
     Abs.code _ [.simple (putN "3")] [] [] (fr 3 "3") (by simp) Abs.nil
   have ai := Abs.ifThen [.op2 0x4c 6] (cnd "3") _ [] _ [] _ _ (nc 6) a1 Abs.nil a2
   exact Abs.loop [] [.op2 0x4c 0] [] _ [] [] (cnd "2") [] [] _ [] [] _ _ f0 (nc 0) f0 ai f0 f0 a3
+
+/-! ### non-vacuity of the exit theorem -/
+
+/-- `repeat while c<2 / put 1 / if c<3 then put 4; exit repeat end if / repeat with i = 1 to 9 / if c<5 then exit repeat end if /
+     put 6 / end repeat / end repeat / put 7` : an exit loop nested behind the if-exit of an exit loop -/
+def exampleX : List SrcX :=
+  [ .loopX .while_ 5 (cnd "2") [ .simple (putN "1") ] 5 (cnd "3") [ .simple (putN "4") ]
+      [ .loopX (.with_ preI incrI) 5 condI [] 5 (cnd "5") [] [ .simple (putN "6") ] ],
+    .simple (putN "7") ]
+
+theorem exampleX_in_class : SrcX.oks 92 exampleX = true := by decide +kernel
+
+example : decompileFlow (rawEv 92 (lowerX exampleX)) = .ok (tgtL 92 (convX 92 exampleX)) :=
+  C03_partial_with_exit exampleX 92 exampleX_in_class
+
+example : (rawEv 92 (lowerX exampleX)).length = 14 ∧ (Src.codes (convX 92 exampleX)).length = 6 := by decide +kernel
+
+/-- an `if` behind the if-exit in the same body (finding F24) is outside the class -/
+example : SrcX.oks 92 [ .loopX .while_ 5 (cnd "2") [] 5 (cnd "3") [] [ .ifThen 5 (cnd "4") [ .simple (putN "1") ] [] ] ] = false := by
+  decide +kernel
 
 /-! ## the excluded coincidence -/
 
